@@ -99,6 +99,9 @@ def base_case(
             step["inject"] = [{"id": "pd", "at": {"msg": 3, "plus": 0}, "do": "dpause"}]
         case["script"].append(step)
     case["script"].append(main)
+    # the control system updates a (possibly monitored) signal once the engine is idle again, and again during the
+    # follow-up calls: nobody may be listening any more
+    case["script"].append({"do": "put", "signal": "sig1", "value": 77})
     if followups:
         case["script"].append({"do": "call", "plan": [msg(S, "null")], "tag": "followup-null"})
         if rng.random() < 0.5:
